@@ -54,3 +54,10 @@ def call(clause, fn, *args, allowed=(), **kw):
         return ('exc', e)
     except Exception as e:          # noqa: any other exception type escaping the library is a finding
         raise unexpected(clause, e)
+
+
+def flagset(names):
+    from bitcoin.core import scripteval as SE
+    m = {'P2SH': SE.SCRIPT_VERIFY_P2SH, 'NULLDUMMY': SE.SCRIPT_VERIFY_NULLDUMMY, 'CLEANSTACK': SE.SCRIPT_VERIFY_CLEANSTACK,
+         'DISCOURAGE_UPGRADABLE_NOPS': SE.SCRIPT_VERIFY_DISCOURAGE_UPGRADABLE_NOPS}
+    return {m[n] for n in names}
